@@ -17,7 +17,7 @@ from ..order import Interp
 from ..algebra_lin import linear_form
 
 COL = "typhon/collocations/collocator.py"
-EXPECT = {"C04.thresholds": 4, "C04.empty": 4, "C04.temporal": 6, "C04.window": 4, "C04.nan": 7, "C04.swap": 4, "C04.offsets": 7,
+EXPECT = {"C04.thresholds": 6, "C04.empty": 4, "C04.temporal": 6, "C04.window": 4, "C04.nan": 8, "C04.swap": 4, "C04.offsets": 7,
           "C04.cache": 4, "C04.interval": 1, "C04.grid": 1}
 
 
@@ -424,6 +424,19 @@ def rule_nan(ctx):
     oku = okm and all(use.get((p_, fld)) == masks[p_] for p_ in (P1, P2) for fld in ("lat", "lon", "time"))
     ctx.ob("Collocator.collocate.filter", oku, "masks %s; filtered fields %s" % (masks, use),
            "lat, lon and time of each dataset are filtered with that dataset's own not-NaN mask", node=f.node, func=f)
+    # the masks are boolean arrays and stay so: indexing with them copies, which is what separates the arrays kept by the cached
+    # spatial index from the caller's data (the cache check compares the points at hand with the points kept)
+    redef = []
+    if okm:
+        for p_ in (P1, P2):
+            for st in flow.stmts:
+                if isinstance(st, (ast.Assign, ast.AugAssign)) and any(isinstance(n_, ast.Name) and isinstance(n_.ctx, ast.Store) and n_.id == masks[p_]
+                                                                         for t2 in (st.targets if isinstance(st, ast.Assign) else [st.target]) for n_ in ast.walk(t2)) \
+                        and not calls_in(st.value, "_get_not_nans"):
+                    redef.append(str(norm(st))[:60])
+    ctx.ob("Collocator.collocate.mask", okm and not redef, "other definitions of the masks: %s" % (redef or "none"),
+           "each mask is the boolean array of _get_not_nans and nothing else (a `slice(None)` in its place hands views of the caller's arrays to the "
+           "cached index, which then compares them with themselves)", node=f.node, func=f)
     # when the filter leaves nothing of one dataset there is no collocation: answer before the tree is built (sklearn raises on 0 samples)
     filt_names = {}
     for st in flow.stmts:
@@ -982,6 +995,25 @@ def rule_spatial_only(ctx):
             wrong = {"max_interval given": a, "start given": b, "end given": c3, "period selected": reached}
     ctx.ob("Collocator._prepare_data.period", wrong is None, "period selected under: %s" % ([("%s" if pol else "not (%s)") % norm(t_) for t_, pol in gc] or "always"),
            "whenever max_interval, start or end is given: a spatial-only search (max_interval=None) is limited to [start, end] as well", node=cc[0], func=h, witness=wrong)
+
+    # ... and the selection is what brings both datasets into time order (the temporal pre-binning relies on it): it is made for both
+    # datasets whenever the period was computed, from the period sorted by time
+    hflow = Flow(h)
+    base_chain = [(str(norm(t_)), pol) for t_, pol in guard_chain(enclosing_stmt(cc[0]))]
+    for who in (P_, S_):
+        sels = [st2 for st2 in hflow.stmts if isinstance(st2, ast.Assign) and len(st2.targets) == 1 and norm(st2.targets[0]) == who
+                and isinstance(st2.value, ast.Call) and isinstance(st2.value.func, ast.Attribute) and st2.value.func.attr in ("sel", "isel", "reindex")
+                and norm(st2.value.func.value) == who]
+        if len(sels) != 1:
+            raise AnalysisError("_prepare_data: expected one selection `%s = %s.sel(...)` of the common period, found %d" % (who, who, len(sels)))
+        own = [(str(norm(t_)), pol) for t_, pol in guard_chain(sels[0])]
+        extra = [("%s" if pol else "not (%s)") % t_ for t_, pol in own if (t_, pol) not in base_chain]
+        src = hflow.resolve(sels[0].value, at=sels[0], depth=4, stop=(P_, S_))
+        by_time = any(isinstance(n_, ast.Call) and isinstance(n_.func, ast.Attribute) and n_.func.attr == "sortby" for n_ in ast.walk(src))
+        ctx.ob("Collocator._prepare_data.sorted[%s]" % who, not extra and by_time,
+               "%s%s; indexer sorted by time: %s" % (norm(sels[0])[:80], (" only if %s" % extra) if extra else " (unconditional)", by_time),
+               "selected with the time-sorted period whenever the period was computed: skipping the selection ('everything lies inside') also skips the "
+               "ordering by time that the searchsorted offsets and .loc slices of the temporal binning need", node=sels[0], func=h)
 
 
 def run(ctx):
